@@ -35,7 +35,7 @@ func (c06) Rule() string {
 
 func (c06) Plan(tier string) []core.Segment {
 	return []core.Segment{
-		{Gen: "model", Profile: "full", Count: scale(tier, 300_000, 20_000_000), Desc: "abstract documents, all serializer choices"},
+		{Gen: "model", Profile: "full", Count: scale(tier, 600_000, 20_000_000), Desc: "abstract documents, all serializer choices"},
 		{Gen: "escapeall", Count: scale(tier, 200_000, 10_000_000)},
 		{Gen: "codeverbatim", Count: scale(tier, 100_000, 5_000_000)},
 	}
